@@ -87,3 +87,35 @@ def programs(seed, n):
         body.append(Echo(S("done")))
         out.append(Program(FUNCS + [Func("main", [], VOID, body)], base_classes(dtor)))
     return out
+
+
+def failing_destructor_programs():
+    """a destructor that raises a runtime error when its object dies by an ordinary reference drop (scope exit, reassignment,
+    return from a function, end of a temporary), followed by code with a different visible effect (another error, more
+    output): the destructor's error ends the run at the next statement boundary, whenever collections happen"""
+    INT = P("int")
+    bad = Class("Bad", "", [Field(INT, "v", I(0))], [Method("get", [], INT, [Ret(Var("v"))])], [Ctor([], [])],
+                [Decl(INT, "z", I(0)), Echo(Bin("/", I(1), Var("z")))])
+    ok = Class("Fine", "", [Field(INT, "v", I(0))], [], [Ctor([], [])], [Echo(S("~Fine"))])
+    later = [
+        [Decl(A("int"), "a", Arr("int", [I(1)])), Decl(INT, "k", I(5)), Echo(Idx(Var("a"), Var("k")))],
+        [Decl(C("Fine"), "nul", Null()), Echo(Fld(Var("nul"), "v"))],
+        [Decl(INT, "m", I(0)), Echo(Bin("%", I(7), Var("m")))],
+        [Echo(S("after")), Echo(Call("churn", I(5)))],
+        [Decl(C("Fine"), "f", New("Fine")), Echo(S("after"))],
+    ]
+    deaths = [
+        lambda: [Block([Decl(C("Bad"), "b", New("Bad"))])],
+        lambda: [Decl(C("Bad"), "b", New("Bad")), Expr(Asg("b", New("Bad")))],
+        lambda: [Decl(C("Bad"), "b", New("Bad")), Expr(Asg("b", Null()))],
+        lambda: [Echo(MCall(New("Bad"), "get"))],
+        lambda: [Echo(Call("drop", I(1)))],
+        lambda: [If(Bin("==", I(1), I(1)), [Decl(C("Bad"), "b", New("Bad")), Echo(S("in"))])],
+    ]
+    drop = Func("drop", [Param(INT, "k")], INT, [Decl(C("Bad"), "t", New("Bad")), Ret(Bin("+", Var("k"), Fld(Var("t"), "v")))])
+    out = []
+    for d in deaths:
+        for l in later:
+            out.append(Program(FUNCS + [drop, Func("main", [], VOID, [Echo(S("start"))] + d() + [Echo(S("mid"))] + l + [Echo(S("end"))])],
+                               base_classes(False) + [bad, ok]))
+    return out
